@@ -813,6 +813,14 @@ def orc_history(case):
                         if msg:
                             return f'{where}: the dataset the operation was applied to changed: {msg}'
                     continue
+                if twice and op[0] == 'sort_by':
+                    # queries before the in-place sort (their results are dropped): what is asked of the sorted dataset later
+                    # must be answered from its sorted state
+                    for dd, vv in zip(cur_r, cur_v):
+                        for by in vv.obs:
+                            if by not in _VEC:
+                                dd.split_obs(by)
+                                dd.subset_obs(by, vv.obs[by][vv.rows[0]])
                 cur_r = _apply_real(op, cur_r, form, bform)
                 if twice:
                     again = _apply_real(op, cur_r if op[0] == 'sort_by' else prev_r, form, bform)
@@ -919,8 +927,9 @@ def orc_labels(case):
         return _expected_cells_g(m, i, oi, ci, ti, 2 if f32 else 6)
 
     def state():       # what the caller can see of the input: labelled cells, labels and ids in order
-        return (_cells(d, temporal), [str(x) for x in labels_of(d)],
-                [int(x) for x in d.obs_descriptors['oid']], [int(x) for x in d.channel_descriptors['chid']])
+        return (_cells(d, temporal), [str(x) for x in labels_of(d)], sorted((k_, str(x)) for k_, x in d.descriptors.items()),
+                [int(x) for x in d.obs_descriptors['oid']], [int(x) for x in d.channel_descriptors['chid']],
+                sorted(d.obs_descriptors), sorted(d.channel_descriptors), sorted(getattr(d, 'time_descriptors', {})))
 
     def sel(idx):
         s = [list(x) for x in full]
@@ -1683,9 +1692,8 @@ def _sweeps(run, thorough):
                  'distinct str values; split+merge, odd_even, average) and of the history oracle (seeded histories of length <= 6, '
                  'split / merge / DataFrame round trips)' % ('1, 2, 3, 4' if thorough else '1, 2', len(jobs)),
                  exhaustive=False, function='Dataset operations')
-    for job in jobs:         # the same cases in this process: a failure here is not a matter of the environment
-        if _ORACLES[job[0]](job[1]) is not None:
-            raise AssertionError(f'harness error: fresh-interpreter job fails in this process: {job}')
+    for job in jobs:         # the same cases in this process first: a failure here is not a matter of the environment
+        bd.check(_ORACLES[job[0]], job[1], job[1]['kind'] + ',sweep', function='Dataset operations')
     bd.check(orc_fresh, dict(hashseeds=[1, 2, 3, 4] if thorough else [1, 2], jobs=jobs), 'fresh-interpreter',
              function='Dataset operations')
     bd.done()
